@@ -12,6 +12,7 @@ From PP Require Import Base.Assoc.
 Import ListNotations.
 Open Scope string_scope.
 Open Scope Z_scope.
+Open Scope list_scope.
 
 (* ---------------------------------------------------------------- schemas (generated) *)
 Inductive target := TJ | TP.                      (* junction table / pipe table *)
@@ -238,9 +239,7 @@ Definition no_self_ref (s : schema) : bool :=
   forallb (fun c => match rc_tsel c with
                     | Fixed t => negb (String.eqb (target_tab t) (s_table s))
                     | ByEt => negb (String.eqb "junction" (s_table s)) && negb (String.eqb "pipe" (s_table s))
-                    end) (s_refcols s)
-  && negb (existsb (fun c => match rc_tsel c with ByEt => true | _ => false end) (s_refcols s)
-           && String.eqb "pipe" (s_table s)).
+                    end) (s_refcols s).
 
 (* ---------------------------------------------------------------- ext-grid type inference *)
 Inductive egt := Auto | TyP | TyT | TyPT | TyTP | TyOther.
@@ -279,15 +278,18 @@ Definition scalar_all (xs : list (bool * bool * egt)) : option (list egt) :=
 
 (* ---------------------------------------------------------------- defaults of twins *)
 Definition default_of (s : schema) (p : string) : option string := get p (s_defaults s).
-(* parameters both twins have, whose literal defaults differ *)
+(* parameters both twins have as optional ones, whose literal defaults differ *)
 Definition default_diffs (pr : schema * schema) : list (string * string * string) :=
   flat_map (fun kv => match default_of (snd pr) (fst kv) with
-                      | Some v => if String.eqb v (snd kv) then [] else [(fst kv, snd kv, v)]
+                      | Some v => if String.eqb v (snd kv) || String.eqb v "<required>"
+                                     || String.eqb (snd kv) "<required>" then [] else [(fst kv, snd kv, v)]
                       | None => []
                       end) (s_defaults (fst pr)).
+Fixpoint forall2b {A} (f : A -> A -> bool) (a b : list A) : bool :=
+  match a, b with [], [] => true | x :: r, y :: s => f x y && forall2b f r s | _, _ => false end.
 Definition same_shape (pr : schema * schema) : bool :=
   String.eqb (s_table (fst pr)) (s_table (snd pr)) &&
-  list_beq refcol (fun a b => String.eqb (rc_col a) (rc_col b) && Bool.eqb (rc_checked a) (rc_checked b) &&
+  forall2b (fun a b => String.eqb (rc_col a) (rc_col b) && Bool.eqb (rc_checked a) (rc_checked b) &&
                               match rc_tsel a, rc_tsel b with
                               | Fixed TJ, Fixed TJ | Fixed TP, Fixed TP | ByEt, ByEt => true | _, _ => false end)
            (s_refcols (fst pr)) (s_refcols (snd pr)) &&
@@ -325,3 +327,12 @@ Fixpoint first_bad (cs : list case) (i : nat) : option nat :=
 Definition summary (cs : list case) : nat * nat * Z :=
   (length cs, length (filter (fun c => negb (case_ok c)) cs),
    match first_bad cs 0 with Some i => Z.of_nat i | None => (-1)%Z end).
+
+(* names of generated schemas with a given defect class, and the twin default differences *)
+Definition unchecked_fns (sigs : list schema) : list string := map s_fn (filter (fun s => negb (fully_checked s)) sigs).
+Definition late_fns (sigs : list schema) : list string := map s_fn (filter s_late sigs).
+Definition twin_diffs (prs : list (schema * schema)) : list (string * string) :=
+  flat_map (fun pr => map (fun x => (s_fn (fst pr), fst (fst x))) (default_diffs pr)) prs.
+Definition subset_str (a b : list string) : bool := forallb (fun x => existsb (String.eqb x) b) a.
+Definition subset_str2 (a b : list (string * string)) : bool :=
+  forallb (fun x => existsb (fun y => String.eqb (fst x) (fst y) && String.eqb (snd x) (snd y)) b) a.
